@@ -111,30 +111,6 @@ func (c *verifNetConn) SetDeadline(t time.Time) error      { return nil }
 func (c *verifNetConn) SetReadDeadline(t time.Time) error  { return nil }
 func (c *verifNetConn) SetWriteDeadline(t time.Time) error { return nil }
 
-// scripted endpoint for the provider loop
-type verifEndpoint struct {
-	one      bool
-	script   []int // per provide() call: 0 = a connection, 1 = errTerminated
-	calls    int
-	closed   int
-	provided []*verifRWC
-}
-
-func (e *verifEndpoint) Conf() EndpointConf      { return nil }
-func (e *verifEndpoint) isEndpoint()             {}
-func (e *verifEndpoint) close()                  { e.closed++ }
-func (e *verifEndpoint) oneChannelAtAtime() bool { return e.one }
-func (e *verifEndpoint) provide() (string, io.ReadWriteCloser, error) {
-	i := e.calls
-	e.calls++
-	if i >= len(e.script) || e.script[i] == 1 {
-		return "", nil, errTerminated
-	}
-	c := &verifRWC{}
-	e.provided = append(e.provided, c)
-	return "scripted", c, nil
-}
-
 // T3: provider loop. one = 1: a one-channel-at-a-time endpoint; closeDone = 1: each channel handed to the node
 // is immediately reported done (its close event was emitted).
 func verifHarness_C14_provider(one int, closeDone int) {
